@@ -222,6 +222,137 @@ def sequences(t):
     return sorted(set(seqs))
 
 
+def independence_templates():
+    """arrays of arrays: array.filled and Clone must produce independent deep copies (no element aliases the argument, the original or a
+    sibling).  Each template: (name, source, number of int parameters, expected observations as a function of the argument terms)."""
+    out = []
+    for n in (1, 2, 3):
+        src = """fn vf_fill_nested_%(n)d(e0: int, e1: int, x: int, y: int) -> array<int> {
+  let out: array<int> = []
+  let row = [e0, e1]
+  let g = array.filled(row, %(n)d)
+  row[0] = x
+  for r in g { out.push(r[0]) }
+  g[0][1] = y
+  out.push(row[1])
+  g[%(last)d].push(5)
+  out.push(row.len())
+  out.push(g[0].len())
+  out.push(g.len())
+  out
+}
+""" % {"n": n, "last": n - 1}
+        out.append(("vf_fill_nested_%d" % n, src, 4,
+                    (lambda n: lambda a: [a[0]] * n + [a[1], I(2), I(3 if n == 1 else 2), I(n)])(n)))
+    src = """fn vf_fill_then_mutate_sibling(e0: int, x: int) -> array<int> {
+  let out: array<int> = []
+  let g = array.filled([e0], 3)
+  g[1][0] = x
+  g[2].push(x)
+  out.push(g[0][0])
+  out.push(g[1][0])
+  out.push(g[2][0])
+  out.push(g[0].len())
+  out.push(g[2].len())
+  out
+}
+"""
+    out.append(("vf_fill_then_mutate_sibling", src, 2, lambda a: [a[0], a[1], a[0], I(1), I(2)]))
+    src = """fn vf_clone_nested(e0: int, e1: int, x: int, y: int) -> array<int> {
+  let out: array<int> = []
+  let g = [[e0], [e1]]
+  let c = Clone.clone(g)
+  c[0][0] = x
+  c[1].push(y)
+  g[1][0] = y
+  out.push(g[0][0])
+  out.push(g[1].len())
+  out.push(c[0][0])
+  out.push(c[1].len())
+  out.push(c[1][0])
+  out.push(g[1][0])
+  out
+}
+"""
+    out.append(("vf_clone_nested", src, 4, lambda a: [a[0], I(1), a[2], I(2), a[1], a[3]]))
+    return out
+
+
+def run_independence(outcome, stats, rdir):
+    """returns (obligations, refuted, samples)"""
+    tpls = independence_templates()
+    src = "".join(t[1] for t in tpls)
+    full = src + "\n".join("%s(%s)" % (t[0], ", ".join("0" for _ in range(t[2]))) for t in tpls) + "\n"
+    prog = bytecode.compile_source(full)
+    n_obl = n_hold = 0
+    samples = []
+    for name, _src, nparams, expect in tpls:
+        entry = {"template": name}
+        try:
+            m, done, inp = api.call(prog, name, lambda i: [i.make("int") for _ in range(nparams)], max_steps=60000, max_paths=500)
+        except InternalFault as e:
+            outcome.violation("%s:internal_fault" % name, "internal fault (host crash) in %s: %s" % (name, e), write(rdir, name + "_fault", full, str(e)))
+            continue
+        except Unsupported as e:
+            outcome.inconc("%s: outside the S model: %s" % (name, e))
+            continue
+        stats["queries"] += m.queries
+        stats["solver_s"] += m.solver_s
+        exp = expect(inp.leaves)
+        entry["paths"] = len(done)
+        verdict = "holds"
+        for st in done:
+            if st.status == "dead":
+                continue
+            n_obl += 1
+            s = z3.Solver()
+            s.set("timeout", 60000)
+            if st.cond:
+                s.add(*st.cond)
+            if st.status == "done":
+                rv = api.result_value(st)
+                elems = st.heap[rv.v][1] if rv is not None and rv.tag == "Array" else None
+                if elems is None or len(elems) != len(exp):
+                    mismatch = z3.BoolVal(True)
+                else:
+                    mismatch = z3.Or(*[e.v != x for e, x in zip(elems, exp)])
+                s.add(mismatch)
+                what = "observations differ from independent-copy semantics"
+            else:
+                what = "ends with %s" % st.status
+            t1 = time.time()
+            r = s.check()
+            stats["solver_s"] += time.time() - t1
+            stats["queries"] += 1
+            if r == z3.unsat:
+                n_hold += 1
+                continue
+            if r == z3.unknown:
+                outcome.inconc("%s: solver unknown" % name)
+                continue
+            verdict = "violated"
+            vals = [s.model().eval(v, model_completion=True).as_signed_long() for v in inp.leaves]
+            key = "%s:%s" % (name[3:], "mismatch" if st.status == "done" else "status")
+            entry["counterexample"] = vals
+            if outcome.findings.lookup("C26", key) is not None:
+                outcome.violation(key, what, None)
+                break
+            lit = lambda v: "(-9223372036854775807 - 1)" if v == -(1 << 63) else ("(%d)" % v if v < 0 else str(v))  # noqa: E731
+            text = src + "println(%s(%s))\n" % (name, ", ".join(lit(v) for v in vals))
+            real = bytecode.run_source(text)
+            want_vals = [z3.simplify(z3.substitute(x, *[(leaf, I(v)) for leaf, v in zip(inp.leaves, vals)])) if z3.is_expr(x) else x for x in exp]
+            want = "[ " + ", ".join(str(w.as_signed_long()) for w in want_vals) + " ]"
+            path = write(rdir, key, text, "%s ; arguments %s ; expected %s ; real VM: %s" % (what, vals, want, real))
+            if real.get("status") != "done" or real.get("output", "").strip() != want:
+                outcome.violation(key, "%s: %s with arguments %s [real VM printed %r, independent copies give %s]" % (name, what, vals, real.get("output"), want), path)
+            else:
+                outcome.inconc("%s: counterexample %s did not reproduce on the real VM (%s)" % (name, vals, path))
+            break
+        entry["verdict"] = verdict
+        samples.append(entry)
+    return n_obl, n_hold, samples
+
+
 def run(outcome, harnesses):
     t = tier()
     # ---- K part
@@ -306,6 +437,15 @@ def run(outcome, harnesses):
             break
         entry["verdict"] = verdict
         samples.append(entry)
+    try:
+        i_obl, i_hold, i_samples = run_independence(outcome, stats, rdir)
+    except bytecode.CompileError as e:
+        outcome.inconc("independence templates do not compile: %s" % str(e)[-300:])
+        i_obl = i_hold = 0
+        i_samples = []
+    n_obl += i_obl
+    n_hold += i_hold
+    samples = i_samples + samples
     cov = {
         "evaluations": n_obl + kfrag["evaluations"],
         "distinct_nontrivial": n_hold + kfrag["distinct_nontrivial"],
@@ -318,7 +458,7 @@ def run(outcome, harnesses):
                               "vm::step arms GetIndex SetIndex ArrayPush ArrayPushIntImm ArrayPop ArrayLength ConstructArray DeconstructArray (Kani)"],
         "bounds": "S: %d sequences (quick: curated; thorough: all of length <= 2 over 13 operations from initial lengths 0 and 2, all of length 3 "
                   "over {push,pop,get,set,swap,remove}); elements/indices symbolic 64-bit. K: arrays of length <= 3. Outside: longer sequences; "
-                  "arrays of heap values; iteration with mutation." % len(fns),
+                  "arrays of heap values; iteration with mutation." % (len(fns), len(i_samples)),
         "queries": stats["queries"] + kfrag["vccs_generated"],
         "solver_s": round(stats["solver_s"] + kfrag["solver_s"], 2),
         "programs": 1,
